@@ -176,6 +176,22 @@ class Resolver:
                 'ConnectionPoint': Interface, 'Link': Link}[cls]
         return ctor(name=props['Name'], node_id=nid, topo=self.t)
 
+    def any_elem(self, eid):
+        """a handle of whatever class the element with this id has (interfaces first)"""
+        for kind in ('iface', 'node', 'comp', 'ns', 'link'):
+            h = self._elem([kind, eid])
+            if h is not None:
+                return h
+        for kind, cls in (('iface', 'ConnectionPoint'), ('node', 'NetworkNode'), ('comp', 'Component'),
+                          ('ns', 'NetworkService'), ('link', 'Link')):
+            try:
+                h = self._direct(eid, cls)
+            except Exception:
+                h = None
+            if h is not None:
+                return h
+        return None
+
     def elem(self, ref):
         h = self._elem(ref)
         if h is None:
@@ -272,7 +288,14 @@ def apply_op(topo, flavour, op):
     elif kind == 'add_ns':
         name, sid, nstype, if_ids = a
         ifs = [_need(R.elem(['iface', i])) for i in if_ids]
-        topo.add_network_service(name=name, node_id=sid, nstype=f.ServiceType[nstype], interfaces=ifs)
+        h = topo.add_network_service(name=name, node_id=sid, nstype=f.ServiceType[nstype], interfaces=ifs)
+        _STATE.setdefault('kept', {})[h.node_id] = h          # a long-lived handle (see stale_add_iface)
+    elif kind == 'stale_add_iface':
+        sid, name, iid, itype = a
+        h = _STATE.get('kept', {}).get(sid)
+        if h is None:
+            raise NoRef()
+        h.add_interface(name=name, node_id=iid, itype=f.InterfaceType[itype])
     elif kind == 'add_pm':
         name, sid, from_name, to_id = a
         to = _need(R.elem(['iface', to_id]))
@@ -282,14 +305,16 @@ def apply_op(topo, flavour, op):
     elif kind == 'node_add_ns':
         node_id, name, sid, nstype = a
         n = _need(R.elem(['node', node_id]))
-        n.add_network_service(name=name, node_id=sid, nstype=f.ServiceType[nstype])
+        h = n.add_network_service(name=name, node_id=sid, nstype=f.ServiceType[nstype])
+        _STATE.setdefault('kept', {})[h.node_id] = h
     elif kind == 'node_remove_ns':
         node_id, name = a
         n = _need(R.elem(['node', node_id]))
         n.remove_network_service(name=name)
     elif kind == 'add_link':
         name, lid, ltype, if_ids = a
-        ifs = [_need(R.elem(['iface', i])) for i in if_ids]
+        # handles of whatever class the ids have: add_link is also handed elements that are not interfaces
+        ifs = [_need(R.any_elem(i)) for i in if_ids]
         topo.add_link(name=name, node_id=lid, ltype=f.LinkType[ltype], interfaces=ifs)
     elif kind == 'remove_link':
         topo.remove_link(name=a[0])
@@ -348,6 +373,7 @@ def new_topology(flavour, store=None):
     from fim.graph.networkx_property_graph import NetworkXGraphImporter
     NetworkXGraphImporter().delete_all_graphs()
     _STATE['tag'], _STATE['k'], _STATE['drawn'] = 0, 0, None
+    _STATE['kept'] = {}
     if store == 'disjoint':
         from fim.graph.networkx_property_graph_disjoint import NetworkXGraphImporterDisjoint
         imp = NetworkXGraphImporterDisjoint()
